@@ -18,7 +18,7 @@ CHECKS = {
     "C08": ("Kruskal re-parameterisations: den(after) == den(before) for all weights / factors (zero columns, negative weights by forks) and the normal form proved through sqrt / N-th-root definitions", "5 C08"),
     "C09": ("CP-ALS sweeps with the linear solve as an opaque stub: for every solver answer z3 proves that the system of mode n is (Hadamard of the other Grams) Z = MTTKRP_n of the current factors, that the stored factor is Z^T over the reported weights, the residual/fit identities, normal form, iteration count, returned guess; complete one-sweep runs on 2x2 / 2x3 rank 1", "5 C09"),
     "C10": ("hosvd / tucker_als around the eigen-solver (contract stub or real solver on concrete data with symbolic tolerance): rank choice vs eigenvalue tail sums, explicit ranks honoured, sizes, core == data contracted with transposed factors, fit identity, guess / data untouched", "5 C10"),
-    "C11": ("CP-APR kernels for all non-negative data / positive models of the bounded shapes: Pi and Phi (dense branch == sparse branch == definition, both sides of the max(., eps) switch) and the log-likelihood with an opaque logarithm (argument == model value at the data entry); whole MU run only in the thorough tier (non-gating); PDNR / PQNR runs not claimed", "5 C11"),
+    "C11": ("CP-APR kernels for all non-negative data / positive models of the bounded shapes: Pi and Phi (dense branch == sparse branch == definition, both sides of the max(., eps) switch) and the log-likelihood with an opaque logarithm (argument == model value at the data entry); whole MU / PDNR / PQNR runs (1-2 outer iterations) on concrete data with a symbolic stopping tolerance: non-negativity, KKT bookkeeping, truthful objective, not worse than the start, operands untouched; runs with symbolic data only for MU in the thorough tier (non-gating)", "5 C11"),
     "C13": ("stochastic GCP solve loop with the estimator stubbed by fresh symbols: best-so-far model returned, rollback on failed epochs, stopping, trace lengths, bounds clipping, reuse of one optimizer object == fresh object; samplers: symbolic draws map to valid subscripts / stored entries with the documented weights; L-BFGS-B wrapper around an opaque scipy stub", "5 C13"),
     "C14": ("nvecs on dense / sparse / Kruskal / Tucker holders with the eigen-solver as a contract stub: the matrix handed over is the mode-n Gram matrix of the denoted array, solver switch, r leading eigenvector columns in decreasing order of magnitude, sign convention", "5 C14"),
     "C16": ("export then import on symbolic elements with token stand-ins for ndarray.tofile / numpy.fromfile (ordering logic is the real code): dense N<=4(5), sparse in every stored order with both index bases, Kruskal, matrices; precision lemma on the format constants read from the current source", "5 C16"),
